@@ -18,6 +18,8 @@ mod fam_hexcol;
 mod fam_edit;
 mod fam_chg;
 mod fam_robust;
+mod fam_marks;
+mod fam_patch;
 mod gen;
 mod model;
 
@@ -51,6 +53,8 @@ fn main() {
         "edit" => fam_edit::run(&mut rng, &tier, out),
         "chg" => fam_chg::run(&mut rng, &tier, out),
         "robust" => fam_robust::run(&mut rng, &tier, out),
+        "marks" => fam_marks::run(&mut rng, &tier, out),
+        "patch" => fam_patch::run(&mut rng, &tier, out),
         _ => {
             eprintln!("unknown family {}", fam);
             std::process::exit(2);
